@@ -31,6 +31,7 @@ EXPLANATION = (
     "Allocation is under `slot is None` and a dominating bound check; free raises on an empty slot."
     ' Mark-then-map: from a statement that marks a physical address in use every path to a return or raise maps it or hands it on; no state effect precedes an explicit raise/assert in an executor method. C13.Z: no truthiness test on an int-typed value.'
     " Handing a marked address to a callee counts as mapping it only if the callee cannot raise before storing it (unless the caller's path facts exclude that raise); calls into the network stack are fault points; mutator calls on subscripted tables are state effects. C13.K: memoisation keys cover the arguments."
+    ' _get_unused_physical_qubit is executed abstractly for six in-use sets (the address handed out is outside the set).'
 )
 LEVEL_TEXT = (
     "Static analysis, partial: lifecycle pairing, used-set coherence, app-keyed indexing and allocation guards are decided for every "
